@@ -6,6 +6,13 @@
                 metrics jwrite <interval> <a<t>.<ip>,f<t>,...>          writer ops at explicit clock values
                 metrics jkey <k1>.<k2> <ip.ip...>                       one chunk under key k1 merged with reference sketches
                 metrics jipc <interval> <p<t>.<ip>.<type>.<a|r|n>,z<t>,f<t>,...>   broker history with a journal attached
+                metrics sched <k> <t.t.t...>      the repaired counter's interleaving machine [runr] on an explicit schedule
+                                                  -> obs=<item,...> done=<n>   item after each step: <completed Incs>:<published value>,
+                                                     or - while the mutex is held (a scrape would block)
+                metrics jwf <interval> <plan> <ops>     jwrite with a failing sink: plan = one letter per Write attempt
+                                                  (o ok, s Sync error, n nothing written, t torn, l all but the newline, w whole line + error)
+                                                  -> lines=<start:end:card | x (unparsable)>;... all=<n|err>
+                metrics jipcf <interval> <plan> <ops>   jipc with a failing sink -> lines=... wins=<...|err> uniq=...
    For [conc]/[race] the model answer is computed with the sequential [incsN]; by C19_inc_conc (repaired
    machine) every interleaving of the Incs publishes exactly this value at every quiescent point. *)
 From Coq Require Import List NArith ZArith Bool Arith String.
@@ -21,6 +28,16 @@ Fixpoint conc_values (rounds : nat) (per : N) (acc : N) : list bytes :=
   | S r => let acc' := acc + per in dec_print (value_after acc') :: conc_values r per acc'
   end.
 
+(* ---------- the interleaving machine of the repaired counter, on an explicit schedule ---------- *)
+Definition obs_item (s : str) : bytes :=
+  match observer s with
+  | Some v => dec_print (N.of_nat (doner s)) ++ [COLON] ++ dec_print v
+  | None => bs "-"
+  end.
+Definition run_sched (sched : list nat) : bytes :=
+  bs "obs=" ++ list_print (map obs_item (runr_trace sched initr)) ++
+  bs " done=" ++ dec_print (N.of_nat (doner (runr sched initr))).
+
 Definition run_round8 (args : list bytes) : option bytes :=
   match args with
   | [op; a] =>
@@ -35,6 +52,11 @@ Definition run_round8 (args : list bytes) : option bytes :=
               let ex := if r =? 0 then 0 else value_after k - k in
               Some (bs "final=" ++ dec_print (value_after (8 * r)) ++ bs " min=" ++ dec_print ex ++ bs " max=" ++ dec_print ex)
             else None
+        | _, _ => None
+        end
+      else if beq op (bs "sched") then
+        match dec_parse_nat a, (if beq b (bs "-") then Some [] else map_opt dec_parse_nat (split_on DOT b)) with
+        | Some k, Some sched => if forallb (fun i => Nat.ltb i k) sched then Some (run_sched sched) else None
         | _, _ => None
         end
       else None
@@ -209,6 +231,28 @@ Definition run_journal (args : list bytes) : option bytes :=
   | _ => None
   end.
 
+(* ---------- journal behind a sink that fails ---------- *)
+Definition wres_parse (c : N) : option wres :=
+  if c =? 111 then Some WOk else if c =? 115 then Some WSyncErr else if c =? 110 then Some WNone
+  else if c =? 116 then Some WTorn else if c =? 108 then Some WNoNewline else if c =? 119 then Some WWhole else None.
+Definition plan_parse (t : bytes) : option (list wres) := if beq t (bs "-") then Some [] else map_opt wres_parse t.
+
+Definition line_print {H} (l : option (chunk H)) : bytes :=
+  match l with
+  | Some c => zprint (c_start c) ++ [COLON] ++ zprint (c_end c) ++ [COLON] ++ dec_print (N.of_nat (List.length (c_sk c)))
+  | None => bs "x"
+  end.
+Definition lines_print {H} (f : list (option (chunk H))) : bytes :=
+  match f with [] => bs "-" | _ => join [SEMI] (map line_print f) end.
+
+Definition run_jwf (k : Z) (plan : list wres) (ops : list (jop N)) : bytes :=
+  let w := fjrun N N jmask N.eqb ops (fnew 0%Z k plan) in
+  let f := file_of w in
+  (* the window of the whole run: up to the clock reading of the last op *)
+  let tend := fold_left (fun _ o => match o with Add t _ => t | Flush t => t end) ops 0%Z in
+  bs "lines=" ++ lines_print f ++ bs " all=" ++
+  match fcount N N.eqb 0%Z tend f with Some r => dec_print (fst r) | None => bs "err" end.
+
 (* ---------- broker + journal (addresses are the decimal tokens; mask = identity on them) ---------- *)
 Definition bmask (a : bytes) : bytes := a.
 
@@ -259,6 +303,14 @@ Definition run_jipc (k : Z) (ops : list bop) : bytes :=
   bs " wins=" ++ list_print (win_items j) ++
   bs " uniq=" ++ DOTS (map (fun t => dec_print (r_type r t)) [0; 1; 2; 3] ++ [dec_print (r_total r)]).
 
+Definition run_jipcf (k : Z) (plan : list wres) (ops : list bop) : bytes :=
+  let s := bfrun bytes bmask beq ops (bfinit bytes false 0%Z k plan) in
+  let f := file_of (bf_w s) in
+  let r := print (bf_m s) in
+  bs "lines=" ++ lines_print f ++
+  bs " wins=" ++ (if readable f then list_print (win_items (good_lines f)) else bs "err") ++
+  bs " uniq=" ++ DOTS (map (fun t => dec_print (r_type r t)) [0; 1; 2; 3] ++ [dec_print (r_total r)]).
+
 Definition run_broker_journal (args : list bytes) : option bytes :=
   match args with
   | [op; a; b] =>
@@ -266,6 +318,18 @@ Definition run_broker_journal (args : list bytes) : option bytes :=
         match zparse a, list_parse bop_parse b with
         | Some k, Some ops => Some (run_jipc k ops)
         | _, _ => None
+        end
+      else None
+  | [op; a; p; b] =>
+      if beq op (bs "jipcf") then
+        match zparse a, plan_parse p, list_parse bop_parse b with
+        | Some k, Some plan, Some ops => Some (run_jipcf k plan ops)
+        | _, _, _ => None
+        end
+      else if beq op (bs "jwf") then
+        match zparse a, plan_parse p, list_parse jop_parse b with
+        | Some k, Some plan, Some ops => Some (run_jwf k plan ops)
+        | _, _, _ => None
         end
       else None
   | _ => None
